@@ -1639,11 +1639,18 @@ namespace gch
             &&  std::is_integral<to>::value;
       };
 
+      // Only conversions which preserve the address (cv-qualification or conversion to `void *`)
+      // may be done with `memcpy`; a derived-to-base conversion may adjust the pointer.
       template <typename From, typename To>
       struct is_convertible_pointer
         : bool_constant<std::is_pointer<From>::value
                     &&  std::is_pointer<To>::value
-                    &&  std::is_convertible<From, To>::value>
+                    &&  std::is_convertible<From, To>::value
+                    &&  (  std::is_same<
+                             typename std::remove_cv<typename std::remove_pointer<From>::type>::type,
+                             typename std::remove_cv<typename std::remove_pointer<To>::type>::type
+                             >::value
+                       ||  std::is_void<typename std::remove_pointer<To>::type>::value)>
       { };
 
       // Memcpyable assignment.
